@@ -120,14 +120,25 @@ def materialise(toks, sites, eolkind, rng):
 def seeds(tier, rng):
     texts = []
     import c01, c03, c05, c04
+    # one representative program per family of the other properties (so that every construct the families use is a seed)
+    reps = []
     for mod in (c01, c03, c05, c04):
-        cs = mod.cases("quick", 1)
-        rng.shuffle(cs)
-        for c in cs[: (40 if tier == "thorough" else 6)]:
+        seen = set()
+        for c in mod.cases("quick", 1):
+            parts = c["fam"].replace(":", "/").split("/")
+            key = tuple(parts[:1]) if mod is c03 else tuple(parts[:2])
+            if key in seen:
+                continue
+            seen.add(key)
             try:
-                texts.append(render.program(c["prog"])[0])
+                reps.append(render.program(c["prog"])[0])
             except render.RenderError:
                 pass
+    reps = [t for t in reps if len(t) <= 700]
+    if tier == "quick":
+        step = max(1, len(reps) // 45)
+        reps = reps[::step]
+    texts += reps
     cp = [c["text"] for c in corpus.programs() if 15 <= len(c["text"]) <= 500]
     rng.shuffle(cp)
     texts += cp[: (150 if tier == "thorough" else 14)]
